@@ -82,13 +82,13 @@ type gor struct {
 }
 
 type World struct {
-	m     *gcsutil.TransientLockMap
-	gs    []*gor
-	acts  []Act
-	obs   []Obs
-	free  atomic.Bool // goroutines run through the yield points without parking (cleanup)
-	wg    sync.WaitGroup
-	stuck bool
+	m      *gcsutil.TransientLockMap
+	gs     []*gor
+	acts   []Act
+	obs    []Obs
+	free   atomic.Bool // goroutines run through the yield points without parking (cleanup)
+	wg     sync.WaitGroup
+	stuck  bool
 	leaked bool
 }
 
